@@ -19,6 +19,8 @@ type GenCfg struct {
 	Weights map[string]int
 	// Initial tree to start from (cloned); nil = empty.
 	Initial *Node
+	// DropFailingMutations: mutating ops that the model refuses (or leaves open) are not emitted.
+	DropFailingMutations bool
 	// Hook lets a property veto/adjust an op after drawing (return false to drop it).
 	Hook func(m *Model, op *Op) bool
 }
@@ -328,6 +330,9 @@ func GenHistory(rt *rapid.T, cfg GenCfg) []Op {
 				g.m.Views = g.m.Views[:views]
 			}
 			continue
+		}
+		if cfg.DropFailingMutations && Mutating(op.Op) && e.Err != No {
+			continue // the model is unchanged by a refused op
 		}
 		ops = append(ops, op)
 	}
